@@ -188,7 +188,14 @@ func doAppend(ctx context.Context, rng *rand.Rand, s *sut, viol violFn, fl *flag
 	if s.sibling != nil && rng.IntN(3) == 0 {
 		w = s.sibling.Store // another store object on the same durable state
 	}
-	off, err := w.Append(ctx, &ebu.Event{Type: e.Type, Data: e.Data, Timestamp: e.Time})
+	// every other append runs under its own context, which ends as soon as the call has returned
+	// (a request-scoped context): later appends must not depend on it
+	actx, acancel := ctx, context.CancelFunc(func() {})
+	if rng.IntN(2) == 0 {
+		actx, acancel = context.WithCancel(ctx)
+	}
+	off, err := w.Append(actx, &ebu.Event{Type: e.Type, Data: e.Data, Timestamp: e.Time})
+	acancel()
 	s.trace = append(s.trace, fmt.Sprintf("Append(type=%q data=%.40q ts=%s) -> %q err=%v", clip(e.Type), string(e.Data), e.Time.Format("2006-01-02T15:04:05.999999999Z07:00:00 MST"), off, err))
 	if err != nil {
 		viol(s, "append-rejected-valid-event", "", fmt.Sprintf("Append of a valid event failed: %v", err))
